@@ -70,6 +70,10 @@ CHECKS = {
          'Differential test of the compact codec and CheckProofOfWork against a transcription of Core arith_uint256 over the complete '
          'exponent x boundary-mantissa grid, every bit length 0..256, boundary hashes on all four chains, plus random triples.',
          TRUST),
+ 'C20': ('exploration', 'Hypothesis stateful testing (insert / query / round-trip histories) against a bit-set model built on a reference MurmurHash3; enumeration of hash lengths and cap boundaries',
+         'After every step of every history the filter bytes must equal the model bit array given by the BIP37 schedule and contains() must equal '
+         'model membership (no false negatives, exact false-positive set); caps, wire layout and round trip; filters arriving from the wire with '
+         'empty data or arbitrary hash counts; MurmurHash3 on all lengths 0..67.', TRUST),
 }
 PENDING_REASON = 'check not built yet in this session (design in DESIGN.md section 4); will be claimed once its check is committed'
 ALL = ['C%02d' % i for i in range(1, 21)]
